@@ -9,7 +9,7 @@ from . import cscen as CS
 FAIL_EVENTS = {"endfail", "readfail", "writefail", "mtimefail", "cut"}
 
 DEFAULTS = {"k": "", "n": 0, "v": CS.NIL, "sv": CS.NIL, "r": 0, "f": 0, "o": [], "dry": False, "ok": False, "same": True,
-            "ops": [], "anc": [], "tpok": True, "outin": True}
+            "ops": [], "anc": [], "tpok": True, "outin": True, "known": True}
 
 
 def normalise_event(e):
@@ -129,7 +129,9 @@ def project_physical(U, phys):
             for u, _v, k in g.in_edges(nd, keys=True):
                 if type(k) is PositionalArg and k.index == 0 and type(u) is Literal:
                     st = u.value
-            opof[nd] = [name, getattr(st, "n", 0)]
+            if st is None:
+                st = getattr(nd.fn, "__self__", None)  # a bound method of the store
+            opof[nd] = [name, st.n] if hasattr(st, "n") else ["other", 0]
             continue
         mod = getattr(nd.fn, "__module__", "")
         if mod.startswith("uberjob") and name.startswith("gather"):
@@ -411,7 +413,12 @@ def _run_history(task):
                 U.log("digest", same=(d0 == U.digest()))
                 continue
             ops, anc = project_physical(U, phys)
-            U.log("dry", ops=ops, anc=anc, outin=(outnode is None or outnode in phys.graph), tpok=(not st.get("tp")) or bool(phys.graph.graph.get("vf_tp")))
+            # (if the returned plan contains calls this harness cannot interpret - the transformation builds its read /
+            # write nodes differently - its *structure* is not judged; executing it, below, still is)
+            known = all(op[0] != "other" for op in ops)
+            if not known:
+                ops, anc = [], []
+            U.log("dry", known=known, ops=ops, anc=anc, outin=(outnode is None or outnode in phys.graph), tpok=(not st.get("tp")) or bool(phys.graph.graph.get("vf_tp")))
             if st.get("obs"):
                 pt = progress_trace(U, scn, notes, notes2, [], False, True, ngather)
                 if pt:
